@@ -130,14 +130,16 @@ def ty_text(t, spec: LangSpec) -> str:
     return spec.name(o) + "(" + ", ".join(ty_text(a, spec) for a in args) + ")"
 
 
-def gen_ty(rng, spec: LangSpec, depth: int, p_special=0.12, allow_fun=True):
+def gen_ty(rng, spec: LangSpec, depth: int, p_special=0.12, allow_fun=True, allow_prod=True):
     """random well-formed concrete type of nesting <= depth"""
     comps = spec.compounds()
     if not allow_fun:
         comps = [c for c in comps if c != FUN]
+    if not allow_prod:
+        comps = [c for c in comps if c != PROD]
     if depth > 0 and comps and rng.random() < 0.6:
         o = rng.choice(comps)
-        return (o, tuple(gen_ty(rng, spec, depth - 1, p_special, allow_fun) for _ in range(spec.arity(o))))
+        return (o, tuple(gen_ty(rng, spec, depth - 1, p_special, allow_fun, allow_prod) for _ in range(spec.arity(o))))
     r = rng.random()
     if r < p_special:
         return (rng.choice([TOP, BOT, UNIT]), ())
